@@ -179,7 +179,7 @@ def run(ctx):
         except Exception:  # noqa
             ctx.count("language_rejected")
             continue
-        canon = [G.py_to_data(t, ops) for t in lang.canon]
+        canon = sorted(G.py_to_data(t, ops) for t in lang.canon)
         if len(canon) > 120:
             ctx.count("canon_too_large_skipped")
             continue
@@ -234,7 +234,7 @@ def replay(ctx, payload):
     opdecls = [(n, fix_schema(s)) for n, s in inp["opdecls"]]
     listed = [tt(t) for t in inp["listed"]]
     lang, operators = X.build_typed_language(spec, ops, opdecls, canon=listed, include_top=inp["top"], include_bottom=inp["bottom"])
-    canon = [G.py_to_data(t, ops) for t in lang.canon]
+    canon = sorted(G.py_to_data(t, ops) for t in lang.canon)
     obs, ex, e, inputs = X.obs_typed(lang, inp["text"], inp["inputs"], ops)
     g = GG.make_graph(lang, inp["bits"])
     root = BNode()
